@@ -26,6 +26,36 @@ PROPS = {
   "stages": [{"name": "c06-search", "kind": "search"}],
   "explanation": "",
  },
+ "C04": {
+  "level": "other",
+  "lean_module": None,
+  "stages": [{"name": "c04-search", "kind": "search"}],
+  "explanation": "",
+ },
+ "C07": {
+  "level": "other",
+  "lean_module": None,
+  "stages": [{"name": "c07-search", "kind": "search"}],
+  "explanation": "",
+ },
+ "C08": {
+  "level": "other",
+  "lean_module": None,
+  "stages": [{"name": "c08-search", "kind": "search"}],
+  "explanation": "",
+ },
+ "C17": {
+  "level": "other",
+  "lean_module": None,
+  "stages": [{"name": "c17-search", "kind": "search"}],
+  "explanation": "",
+ },
+ "C19": {
+  "level": "other",
+  "lean_module": None,
+  "stages": [{"name": "c19-search", "kind": "search"}],
+  "explanation": "",
+ },
  "C14": {
   "level": "proof",
   "lean_module": "ClipVerif.Props.C14",
